@@ -91,6 +91,24 @@ impl Interfaces {
             .collect()
     }
 
+    /// Attempts used for names found in none of the `*_messages()` tables: every interface
+    /// message is tried and the successful attempts are counted.
+    pub fn emit_unlisted_deserialization_attempts(&self) -> Vec<TokenStream> {
+        self.interfaces
+            .iter()
+            .map(|interface| {
+                let ContractMessageAttr { variant, .. } = interface;
+
+                quote! {
+                    if let Ok(msg) = val.clone().deserialize_into() {
+                        sv_unlisted_msg = Some(Self:: #variant (msg));
+                        sv_unlisted_cnt += 1;
+                    }
+                }
+            })
+            .collect()
+    }
+
     pub fn emit_response_schemas_calls(
         &self,
         msg_ty: &MsgType,
